@@ -20,6 +20,7 @@ Definition z1024 : list Z := Eval vm_compute in zseq 1024.
 Definition take {A} (k : Z) (l : list A) : list A :=
   firstn (Z.to_nat (Z.min k (Z.of_nat (length l)))) l.
 Definition zlen {A} (l : list A) : Z := Z.of_nat (length l).
+Definition memz (x : Z) (l : list Z) : bool := existsb (Z.eqb x) l.
 
 (* ------------------------------------------------------------------ one word *)
 Definition wbits (w : Z) : list Z := filter (Z.testbit w) z64.        (* set positions, ascending *)
@@ -57,17 +58,21 @@ Definition member (b : bitmap) (j : Z) : bool :=
 (* Len: sum of the words' Len *)
 Definition blen (b : bitmap) : Z := fold_right (fun w a => wlen w + a) 0 b.
 
-(* IterAsT / RIterAsT of Bit1024:
-     for i := 0; i < 16; i++ (resp. 15 downto 0) { if iterN >= n {break};
-        e = b[i].IterAsT(s, cursor, 64*i+add, left); iterN += e; cursor += e; left = n - iterN } *)
-Fixpoint iter_words (rv : bool) (wr : Z -> Z) (ws : list (Z * Z)) (add n iterN : Z) (acc : list Z) : list Z :=
-  match ws with
+(* The loop shared by Bit1024.IterAsT / RIterAsT (over the 16 words) and by the list forms (over the blocks):
+     for each element x in order { if iterN >= n {break};
+        e = x.Iter(s, cursor, ..., left); iterN += e; cursor += e; left = n - iterN }
+   it x left = what the element's iterator writes when it is allowed left entries *)
+Fixpoint iter_loop {X} (it : X -> Z -> list Z) (xs : list X) (n iterN : Z) (acc : list Z) : list Z :=
+  match xs with
   | [] => acc
-  | (k, w) :: r =>
+  | x :: r =>
     if iterN >=? n then acc
-    else let out := witer rv wr w (64 * k + add) (n - iterN) in
-         iter_words rv wr r add n (iterN + zlen out) (acc ++ out)
+    else let out := it x (n - iterN) in iter_loop it r n (iterN + zlen out) (acc ++ out)
   end.
+
+(* IterAsT / RIterAsT of Bit1024: word i is iterated with add = 64*i + add *)
+Definition iter_words (rv : bool) (wr : Z -> Z) (ws : list (Z * Z)) (add n iterN : Z) (acc : list Z) : list Z :=
+  iter_loop (fun kw left => witer rv wr (snd kw) (64 * fst kw + add) left) ws n iterN acc.
 Definition indexed (b : bitmap) : list (Z * Z) := combine z16 b.
 Definition iter1024 (rv : bool) (wr : Z -> Z) (b : bitmap) (add n : Z) : list Z :=
   iter_words rv wr (if rv then rev (indexed b) else indexed b) add n 0 [].
@@ -158,14 +163,9 @@ Definition tip_from_data (st : Z) (bs : list Z) : dres :=
   if MAXTIP <? st then DErr else from_unm st (unmarshal zero bs).
 
 (* ------------------------------------------------------------------ list forms *)
-(* for i over the blocks { if iterN >= n {break}; e = b[i].Iter(s, pos, left); iterN += e; pos += e; left = n - iterN } *)
-Fixpoint iter_blocks (it : block -> Z -> list Z) (bl : list block) (n iterN : Z) (acc : list Z) : list Z :=
-  match bl with
-  | [] => acc
-  | b :: r =>
-    if iterN >=? n then acc
-    else let out := it b (n - iterN) in iter_blocks it r n (iterN + zlen out) (acc ++ out)
-  end.
+(* the same loop over the blocks: e = b[i].IterAsT(s, pos, left) *)
+Definition iter_blocks (it : block -> Z -> list Z) (bl : list block) (n iterN : Z) (acc : list Z) : list Z :=
+  iter_loop it bl n iterN acc.
 (* len == 0 returns nil before make([]T, n) is reached *)
 Definition list_getn (it : block -> Z -> list Z) (bl : list block) (n : Z) : iobs :=
   match bl with
